@@ -122,6 +122,9 @@ func Dial(addr string, timeout time.Duration) (net.Conn, error) {
 		var c net.Conn
 		c, err = net.DialTimeout("tcp", addr, timeout)
 		if err == nil {
+			if tc, ok := c.(*net.TCPConn); ok {
+				return &Conn{tc}, nil
+			}
 			return c, nil
 		}
 		if !transient(err) || i >= 4 {
@@ -134,4 +137,14 @@ func Dial(addr string, timeout time.Duration) (net.Conn, error) {
 // Server is httptest.NewUnstartedServer on a listener from Listen.
 func Server(h http.Handler) *httptest.Server {
 	return &httptest.Server{Listener: Listen(), Config: &http.Server{Handler: h}}
+}
+
+// Conn is a harness client connection. Its Close resets the connection instead of going through
+// FIN/TIME_WAIT: the harness closes a connection when it is done with the exchange (or wants to be seen
+// hanging up), and a client port parked for 60 s per exchange is what exhausts the sandbox's port range.
+type Conn struct{ *net.TCPConn }
+
+func (c *Conn) Close() error {
+	c.TCPConn.SetLinger(0)
+	return c.TCPConn.Close()
 }
